@@ -121,6 +121,9 @@ def run(prog, R):
     R.premises(prog, "C17.1-lexer-layout-premise", ["C10:C10.1-", "C15:C15.5-", "C15:C15.3-", "C15:C15.2-", "C15:C15.4-"],
                "whether a blank may be inserted between two lexemes, or an identifier renamed, without changing the token classes rests on the lexer's tables: number + unit splitting, whitespace class, trivia / jointness handling, numeric suffix protocol, keyword / directive word boundaries, comment delimiters")
     R.premises(prog, "C17.4-symbol-store-premise", ["C19:C19.1-", "C19:C19.5-"], "symbols once emitted are never changed: the symbol store is append-only (C19.1) and ids index it (C19.5)")
+    import roles
+    roles.check(prog, R, "C17.1-accessor-roles")       # the typed accessors select constituents among child *nodes*: comments and blanks between tokens do not change what they return
+    R.premises(prog, "C17.4-diagnostics-premise", ["C18:C18.2-per-file-error-lists", "C12:C12.3-"], "diagnostics are append-only per file: the current error list is exchanged only by the entry/exit pair of syntax_to_semantic and written only through the Context")
     # ---- C17.4 append only, one pass
     for adt, fld in (("oq3_semantics::asg::Program", "stmts"), ("oq3_semantics::semantic_error::SemanticErrorList", "list"), ("oq3_semantics::semantic_error::SemanticErrorList", "include_errors")):
         if adt not in prog.adts:
